@@ -220,7 +220,7 @@ def run(ctx, monitors):
     trace = run_harness(ctx, "./internal/dkg", "TestVerifDKGControl", "dkgcontrol.ndjson", env={"VERIF_IN": inp},
                         timeout=900 if q else 2400)
     # 3. code -> spec (the trace is cut at scenario boundaries and validated by several TLC runs in parallel)
-    ok, alarms, dones = _validate_chunks(ctx, trace, 4 if q else 8, 900 if q else 2400)
+    ok, alarms, dones = _validate_chunks(ctx, trace, 6 if q else 8, 900 if q else 2400)
     nscen = count_lines(trace, "Reset")
     summary = {}
     with open(trace) as fh:
